@@ -480,6 +480,15 @@ func r064(c *Ctx, r *R) {
 			})
 			r.Check(notMeta && notRemote && inState && noOp, "status:order", site.Call.Pos(), "IPFS is consulted only for pins in the state that are neither meta nor remote and have no tracked operation",
 				fmt.Sprintf("Status consults IPFS without first deciding operation table (%v), state membership (%v), meta (%v), remote (%v)", noOp, inState, notMeta, notRemote))
+			// meta before remote, as in the listing: a meta entry has no
+			// allocations but keeps its replication factors, so the remote
+			// test is true for it on every peer
+			for _, rc := range findCalls(f, false, "api.Pin).IsRemotePin") {
+				metaFirst := guardedBy(rc.Block(), func(g Guard) bool {
+					return gEq(g, meta, false, func(x ssa.Value) bool { fld, _ := fieldLoad(x); return fld != nil && fld.Name() == "Type" })
+				})
+				r.Check(metaFirst, "status:meta-before-remote", rc.Pos(), "the remote test is reached only for pins that are not meta entries (same order as the listing)", "Status tests IsRemotePin before the meta test: a meta entry (no allocations, positive factors) is reported remote by the per-CID view and sharded by the listing")
+			}
 			// the pin given to PinLsCid is the one from the state
 			a := callArgs(site.Call.Common())
 			pc, idx := originCall(a[4])
